@@ -238,3 +238,57 @@ func copyFact(f *Fact) *Fact {
 	g.items = []*Item{{V: f.items[0].V}, {V: f.items[1].V}}
 	return &g
 }
+
+// ---------------------------------------------------------------- a JSON fact with symbolic leaves
+
+// newJSONTree is the decoded form of {"a": <num>, "flag": <bool>, "s": "go", "b": {"c": <num>}, "arr": [<num>, <num>]}.
+func newJSONTree(tag string) map[string]interface{} {
+	return map[string]interface{}{
+		"a":    smallFloat(tag + ".a"),
+		"flag": verif.Bool(tag + ".flag"),
+		"s":    "go",
+		"b":    map[string]interface{}{"c": smallFloat(tag + ".b.c")},
+		"arr":  []interface{}{smallFloat(tag + ".arr0"), smallFloat(tag + ".arr1")},
+	}
+}
+
+type jsonSnap struct {
+	a, bc, arr0, arr1 interface{}
+	flag, s           interface{}
+	n, nb, narr       int
+}
+
+func snapJSON(t map[string]interface{}) jsonSnap {
+	s := jsonSnap{a: t["a"], flag: t["flag"], s: t["s"], n: len(t)}
+	if b, ok := t["b"].(map[string]interface{}); ok {
+		s.bc, s.nb = b["c"], len(b)
+	}
+	if arr, ok := t["arr"].([]interface{}); ok {
+		s.narr = len(arr)
+		if len(arr) == 2 {
+			s.arr0, s.arr1 = arr[0], arr[1]
+		}
+	}
+	return s
+}
+
+// sameJSONLeaf compares two JSON leaves (float64 / int64 after an integer assignment / bool / string) without forking.
+func sameJSONLeaf(a, b interface{}) bool {
+	switch x := a.(type) {
+	case float64:
+		y, ok := b.(float64)
+		return ok && verif.SameFloat64(x, y)
+	case int64:
+		y, ok := b.(int64)
+		return ok && x == y
+	case bool:
+		y, ok := b.(bool)
+		return ok && verif.Iff(x, y)
+	case string:
+		y, ok := b.(string)
+		return ok && x == y
+	case nil:
+		return b == nil
+	}
+	return false
+}
